@@ -45,9 +45,15 @@ def c_table(rows):
     return clist(['(%d, %s, %s)' % (i, cbytes(str(c).encode()), cbytes(str(t).encode())) for i, c, t in rows])
 
 
-def observe_accept(served, ts, own, proposals, peer_max):
-    """Run the real accept(); returns the Coq case term and a human summary."""
-    from pynetdicom2 import asceprovider, exceptions, dimsemessages
+TITLES = [('CALLED', 'CALLING'), ('ARCHIVE         ', 'WORKSTATION 1   '), (' LEAD', 'TRAIL '), ('A', 'SIXTEEN_CHARS_AE'),
+          ('IN NER', 'X' * 16)]
+
+
+def observe_accept(served, ts, own, proposals, peer_max, variant=0):
+    """Run the real accept(); returns the Coq case term and a human summary.  variant > 0: AE titles padded with
+    spaces (as PS3.8 prescribes and most toolkits send) / with leading or inner spaces / of full length, and SCP/SCU
+    role selection sub-items for some of the proposed abstract syntaxes (what an AE that is also an SCP sends)."""
+    from pynetdicom2 import asceprovider, exceptions, dimsemessages, userdataitems
     acc = object.__new__(asceprovider.AssociationAcceptor)
     acc.ae = StubAE(dict((s, served_service) for s in served), ts)
     acc.dul = impl.StubDul()
@@ -57,11 +63,23 @@ def observe_accept(served, ts, own, proposals, peer_max):
     acc.remote_ae = b''
     acc.is_killed = False
     acc._served = []
-    rq = make_rq(proposals, peer_max)
+    called, calling = TITLES[variant % len(TITLES)]
+    extra = []
+    if variant:
+        seen_abs = []
+        for k, (_cid, abs_, _tss) in enumerate(proposals):
+            if abs_ not in seen_abs and (k + variant) % 2 == 0:
+                seen_abs.append(abs_)
+                extra.append(userdataitems.ScpScuRoleSelectionSubItem(abs_, (variant + k) % 2, 1 - (variant // 2) % 2))
+    rq = make_rq(proposals, peer_max, called, calling, extra)
     rq_model = pm.from_impl(rq)
     err = None
+    # through _establish(): the request comes from the provider, the application hook sees it, accept() answers
+    acc.dul.receive = lambda timeout=None: rq
+    acc.ae.on_association_request = lambda asce, assoc_rq: None
+    acc.association_established = False
     try:
-        acc.accept(rq)
+        acc._establish()
     except Exception as e:  # noqa
         err = type(e).__name__
     ac = acc.dul.sent[0] if acc.dul.sent else None
@@ -133,7 +151,8 @@ def observe_accept(served, ts, own, proposals, peer_max):
         'None' if ac is None else '(Some %s)' % pm.c_pdu(pm.from_impl(ac)),
         c_table(table), cbool(ctx_same), acc.max_pdu_length if isinstance(acc.max_pdu_length, int) else 0,
         cbytes(pm.b_(acc.remote_ae)), cbool(dispatch_ok))
-    human = dict(served=served, ts=ts, own_max=own, peer_max=peer_max, proposals=proposals, error=err,
+    human = dict(served=served, ts=ts, own_max=own, peer_max=peer_max, proposals=proposals, error=err, variant=variant,
+                 titles=(called, calling), role_selection=[(str(x.sop_class_uid), x.scu_role, x.scp_role) for x in extra],
                  answers=[(i.context_id, i.result_reason, str(i.ts_sub_item.name)) for i in (ac.variable_items[1:-1] if ac else [])],
                  table=[(i, str(c), str(t)) for i, c, t in table], new_max=acc.max_pdu_length, dispatch_ok=dispatch_ok)
     return term, human
